@@ -4,14 +4,14 @@
 # check against it (-repo <scratch>, no evidence written), record which rules fire in detection.txt / meta.json.
 export GOFLAGS=-mod=mod GOPROXY=off GOSUMDB=off GOTOOLCHAIN=local GOWORK=off
 ids="$@"; [ -z "$ids" ] && ids=$(ls /verif/seeded)
-props=$(/verif/bin/dhtlint -gen-manifest | python3 -c "import json,sys; print(' '.join(c['property_id'] for c in json.load(sys.stdin)['checks']))")
+props=$(${DHTLINT:-/verif/bin/dhtlint} -gen-manifest | python3 -c "import json,sys; print(' '.join(c['property_id'] for c in json.load(sys.stdin)['checks']))")
 one(){
   id=$1; d=/verif/seeded/$id; wt=/tmp/sc_$id
   git -C /repo worktree add -q --detach $wt HEAD || return
   ( cd $wt && git apply $d/patch.diff ) || { echo "$id PATCH FAILS"; git -C /repo worktree remove --force $wt; return; }
   : > $d/detection.txt
   for p in $props; do
-    /verif/bin/dhtlint -repo $wt -property $p -tier quick -no-evidence > /tmp/sc_$id.$p.txt 2>&1; rc=$?
+    ${DHTLINT:-/verif/bin/dhtlint} -repo $wt -property $p -tier quick -no-evidence > /tmp/sc_$id.$p.txt 2>&1; rc=$?
     grep -E "^(VIOLATION|BROKEN)" /tmp/sc_$id.$p.txt | sed -e "s#replay=[^ ]* ##" | cut -c1-400 >> $d/detection.txt
     echo "$p exit=$rc" >> $d/detection.txt
     rm -f /tmp/sc_$id.$p.txt
